@@ -93,13 +93,14 @@ def build_pgpy_message(spec):
     return msg
 
 
-def pgpy_encrypt(msg, recips, cipher, supplied=None):
+def pgpy_encrypt(msg, recips, cipher, supplied=None, forget=False):
     """encrypt to all recipients via the public API.  With more than one recipient the session key is
-    supplied (generated with gen_key() as the docs say unless `supplied` given)."""
+    supplied (generated with gen_key() as the docs say unless `supplied` given); forget: the caller loops over the
+    recipients without passing a session key at all."""
     from pgpy.constants import SymmetricKeyAlgorithm, HashAlgorithm
     C = SymmetricKeyAlgorithm(cipher)
     sk = supplied
-    if sk is None and len(recips) > 1:
+    if sk is None and len(recips) > 1 and not forget:
         sk = C.gen_key()
     kids = [r['kid'] for r in recips if r['t'] == 'key']
     pub = keypool.pgpy_key(recipient_cert(kids, secret=False)) if kids else None
